@@ -174,6 +174,37 @@ func (s *c05Setup) apply(in []byte, f c05Fault, pristine bool) []byte {
 			}
 			return own(i)
 		})
+	case "forged-empty-frame": // frame A replaced by a frame of length 0 with an arbitrary 16-byte tag
+		out = join(seq(), func(i int) []byte {
+			if i == f.A {
+				return append([]byte{0, 0}, pat(16, byte(f.B))...)
+			}
+			return own(i)
+		})
+	case "forged-empty-frame-inserted": // such a frame inserted before frame A (A == nf: appended)
+		for i := 0; i <= nf; i++ {
+			if i == f.A {
+				tmp := append([]byte{0, 0}, pat(16, byte(f.B))...)
+				if i == 0 {
+					out = append(tmp, in...)
+				} else if i == nf {
+					out = append(append([]byte{}, in...), tmp...)
+				} else {
+					out = append(append(append([]byte{}, in[:s.frames[i].start]...), tmp...), in[s.frames[i].start:]...)
+				}
+			}
+		}
+	case "forged-frame": // frame A replaced by a same-length frame of arbitrary bytes (valid length field)
+		out = join(seq(), func(i int) []byte {
+			if i == f.A {
+				fr := append([]byte{}, own(i)...)
+				for k := 2; k < len(fr); k++ {
+					fr[k] = byte(k*13 + f.B)
+				}
+				return fr
+			}
+			return own(i)
+		})
 	case "insert-byte":
 		if f.A <= len(in) {
 			out = append(append(append([]byte{}, in[:f.A]...), byte(f.B)), in[f.A:]...)
@@ -443,6 +474,14 @@ func c05Singles(s *c05Setup, thorough bool) []c05Fault {
 			}
 		}
 		fs = append(fs, c05Fault{Kind: "reflect-all"})
+		for i := 0; i < nf; i++ {
+			for _, b := range []int{0, 255} {
+				fs = append(fs, c05Fault{Kind: "forged-empty-frame", A: i, B: b}, c05Fault{Kind: "forged-frame", A: i, B: b})
+			}
+		}
+		for i := 0; i <= nf; i++ {
+			fs = append(fs, c05Fault{Kind: "forged-empty-frame-inserted", A: i, B: 7})
+		}
 		if len(s.old) == len(s.stream) {
 			for i := 0; i < nf; i++ {
 				fs = append(fs, c05Fault{Kind: "replay-2^32-earlier", A: i})
@@ -553,7 +592,7 @@ func init() {
 	fw.Register(&fw.Check{
 		ID:     "C05",
 		Level:  "fault_enumeration",
-		Rule:   "for 20 stream shapes (0–4 frames, message lengths around 1, 1023..1025, k·1024; frame counters starting at 0, 1, 300 and — preset through reflection — 2^32−1, 2^32, 2^32+5, 2^40, 2^63−1, 2^64−4) × both receiving directions × secrets: every single-bit flip of the whole ciphertext stream, truncation at every byte offset, every frame deletion, duplication at every position, every non-identity permutation, reflection of the receiver's own frames, same-index frames of a session with another secret, a frame the same sender sealed 2^32 counters earlier, byte insertion/removal at frame edges; thorough adds all ordered pairs of faults from a reduced menu on the small shapes. Sender = reference framing, receiver = hc's real session; for streams under 2200 bytes the same faults are also fed one level up through a real hap.Connection (released bytes, error, nothing released to a caller that keeps reading after the error). distinct_nontrivial = distinct (fault kinds, error reported?) classes among faults that changed at least one byte",
+		Rule:   "for 20 stream shapes (0–4 frames, message lengths around 1, 1023..1025, k·1024; frame counters starting at 0, 1, 300 and — preset through reflection — 2^32−1, 2^32, 2^32+5, 2^40, 2^63−1, 2^64−4) × both receiving directions × secrets: every single-bit flip of the whole ciphertext stream, truncation at every byte offset, every frame deletion, duplication at every position, every non-identity permutation, reflection of the receiver's own frames, same-index frames of a session with another secret, a frame the same sender sealed 2^32 counters earlier, forged frames (empty with an arbitrary tag — replacing a frame or inserted anywhere —, or arbitrary bytes of the original length), byte insertion/removal at frame edges; thorough adds all ordered pairs of faults from a reduced menu on the small shapes. Sender = reference framing, receiver = hc's real session; for streams under 2200 bytes the same faults are also fed one level up through a real hap.Connection (released bytes, error, nothing released to a caller that keeps reading after the error). distinct_nontrivial = distinct (fault kinds, error reported?) classes among faults that changed at least one byte",
 		Run:    c05Run,
 		Budget: func(string) time.Duration { return 25 * time.Minute },
 		Replay: func(c *fw.Ctx, raw json.RawMessage) {
